@@ -1,4 +1,5 @@
 import NitroVerif.Lemmas.CheckOpValues
+import NitroVerif.Lemmas.IntLit
 namespace NitroVerif.CheckOp
 open NitroVerif.Gql NitroVerif.CheckCommon NitroVerif.Valid
 
@@ -58,7 +59,7 @@ def Value.isLeafLit : Value → Bool
 
 theorem scalar_table : ∀ (n : Name) (v : Value), Value.isLeafLit v = true →
     scalarAccepts n v =
-      (if n == "Int" then (match v with | .int .. => true | _ => false)
+      (if n == "Int" then (match v with | .int s _ => SpecInt.intTextInRange s | _ => false)
        else if n == "Float" then (match v with | .int .. => true | .float .. => true | _ => false)
        else if n == "String" then (match v with | .str .. => true | _ => false)
        else if n == "Boolean" then (match v with | .bool .. => true | _ => false)
@@ -68,7 +69,7 @@ theorem scalar_table : ∀ (n : Name) (v : Value), Value.isLeafLit v = true →
   unfold scalarAccepts
   by_cases h1 : n = "Boolean" <;> by_cases h2 : n = "Int" <;> by_cases h3 : n = "Float" <;>
     by_cases h4 : n = "String" <;> by_cases h5 : n = "ID" <;>
-    cases v <;> simp [Value.isLeafLit] at hv <;> simp_all
+    cases v <;> simp [Value.isLeafLit] at hv <;> simp_all [IntLit.intLiteralFitsI32_eq]
 
 /-- a leaf literal accepted by `namedLeaf` is coercible to the named type (spec input coercion) -/
 theorem leaf_coercible {A : ErrKind → Bool} (hA : Admissible A) {S : Schema} {v : Value} {n : Name} {np : Pos}
